@@ -32,6 +32,30 @@ type c18Pin struct {
 	Lo, Hi *string // nil = unbounded
 }
 
+// c18NonLiteral: the conjunct constrains the key by something that is not a
+// literal ('a' + 'b', lower('A')). The property is stated for literals; what
+// the planner does with constant expressions is not part of it.
+func c18NonLiteral(n *lib.Node) bool {
+	if len(n.A) == 0 || !(n.K == "in" || n.K == "between" || n.K == "bin") {
+		return false
+	}
+	hasKey := false
+	for _, a := range n.A {
+		if a.K == "key" {
+			hasKey = true
+		}
+	}
+	if !hasKey {
+		return false
+	}
+	for _, a := range n.A {
+		if a.K != "key" && a.K != "str" && !a.Has(func(x *lib.Node) bool { return x.K == "key" || x.K == "value" }) {
+			return true
+		}
+	}
+	return false
+}
+
 func c18PinOf(n *lib.Node) (c18Pin, bool) {
 	s := func(x string) *string { return &x }
 	switch n.K {
@@ -159,8 +183,16 @@ func c18Unsat(conj []*lib.Node, pins []c18Pin) bool {
 			return true
 		}
 	}
+	// The planner intersects regions pairwise along the tree and may widen an
+	// intermediate result (prefix & range keeps one of the two), so for three
+	// or more pinning conjuncts only the pair that is combined directly - the
+	// first two - is "on its face"; with exactly two pinning conjuncts (and any
+	// number of opaque ones) the pair is always combined directly.
 	for i := range pins {
 		for j := i + 1; j < len(pins); j++ {
+			if len(pins) > 2 && !(i == 0 && j == 1) {
+				continue
+			}
 			a, b := pins[i], pins[j]
 			switch {
 			case a.Kind == "set" && b.Kind == "set":
@@ -198,6 +230,11 @@ func checkC18(c *c18Case) (msg string, nontrivial bool, labels []string) {
 	st := &lib.Stmt{Kind: "select", Star: true, Where: where}
 	q := st.Render()
 	c.Query = q
+	for _, n := range c.Conj {
+		if c18NonLiteral(n) {
+			return "", false, []string{"skipped-non-literal-operand"}
+		}
+	}
 	var pins []c18Pin
 	hasSet := false
 	for _, n := range c.Conj {
